@@ -1536,6 +1536,51 @@ def split_elementwise_unpack(fn_node) -> int:
     return count
 
 
+def split_parallel_assign(fn_node) -> int:
+    """``a, self.b, c = (x, y, z)`` (a literal tuple of the same length on the right) -> one assignment per target, in order,
+    when that is the same thing: no target is read by a later right-hand element, targets are names or attributes of names,
+    and - unless all targets are local names - the right-hand elements contain no call (a callee could observe the order)."""
+    count = 0
+    for node in ast.walk(fn_node):
+        for fld in ("body", "orelse", "finalbody"):
+            blk = getattr(node, fld, None)
+            if not (isinstance(blk, list) and blk and isinstance(blk[0], ast.stmt)):
+                continue
+            i = 0
+            while i < len(blk):
+                st = blk[i]
+                i += 1
+                if not (isinstance(st, ast.Assign) and len(st.targets) == 1 and isinstance(st.targets[0], (ast.Tuple, ast.List)) and isinstance(st.value, (ast.Tuple, ast.List))):
+                    continue
+                tg, vals = st.targets[0].elts, st.value.elts
+                if len(tg) != len(vals) or len(tg) < 2 or any(isinstance(x, ast.Starred) for x in list(tg) + list(vals)):
+                    continue
+                if not all(isinstance(t, ast.Name) or (isinstance(t, ast.Attribute) and isinstance(t.value, ast.Name)) for t in tg):
+                    continue
+                all_names = all(isinstance(t, ast.Name) for t in tg)
+                if not all_names and any(isinstance(n, (ast.Call, ast.Await, ast.Yield)) for v in vals for n in ast.walk(v)):
+                    continue
+                ok = True
+                for k, t in enumerate(tg):
+                    tt = ast.unparse(t)
+                    base = t.id if isinstance(t, ast.Name) else None
+                    for v in vals[k + 1:]:
+                        for n in ast.walk(v):
+                            if isinstance(n, (ast.Name, ast.Attribute)) and ast.unparse(n) == tt:
+                                ok = False
+                            if base is not None and isinstance(n, ast.Name) and n.id == base:
+                                ok = False
+                if not ok:
+                    continue
+                new = [ast.copy_location(ast.Assign(targets=[t], value=v), st) for t, v in zip(tg, vals)]
+                blk[i - 1:i] = new
+                i += len(new) - 1
+                count += 1
+    if count:
+        ast.fix_missing_locations(fn_node)
+    return count
+
+
 def fold_constant_tests(fn_node) -> int:
     """``if True: S`` -> S, ``if False: S else: T`` -> T, ``a if True else b`` -> a, and ``True and x`` / ``not False`` inside
     a test folded first: the shape a constant keyword argument (``move=True``) leaves behind once its helper is inlined."""
@@ -2517,6 +2562,17 @@ def normalise(prog: Program) -> Tuple[Program, List[str]]:
                 ast.fix_missing_locations(m.tree)
             trees = {m.relpath: m.tree for m in prog.modules.values()}
             prog = Program(prog.root, override_trees=trees)
+    # tuple assignments from a literal tuple (what an unrolled generator on the right-hand side leaves) one by one
+    n_split = 0
+    for fn in prog.functions():
+        if body_hash(fn.node) not in _inventory()[1]:
+            k_ = split_parallel_assign(fn.node)
+            if k_:
+                n_split += k_
+                log.append(f"{fn.qualname} ({k_} tuple assignment(s) from a literal tuple split)")
+    if n_split:
+        trees = {m.relpath: m.tree for m in prog.modules.values()}
+        prog = Program(prog.root, override_trees=trees)
     # shape normalisation of the candidate filter (the stage recogniser expects one result variable and one exit)
     try:
         from .roles import Roles
